@@ -40,6 +40,53 @@ def ctx() -> "Ctx":
     return _ctx
 
 
+QUERY_TIMEOUT_MS = [60000]
+_FP_TACTIC = z3.Then("simplify", "fpa2bv", "simplify", "bit-blast", "smt")
+CVC5 = "/usr/bin/cvc5"
+
+
+def _cvc5_check(assertions, assumptions, timeout_ms):
+    """Run the cvc5 binary on the query.  Returns ('unsat', None) / ('sat', {name: (sort, value)}) / None."""
+    import os
+    import re
+    import subprocess
+    import tempfile
+    if not os.path.exists(CVC5):
+        return None
+    s = z3.Solver()
+    s.add(assertions)
+    for a in assumptions:
+        s.add(a)
+    txt = "(set-option :produce-models true)\n(set-logic QF_BVFP)\n" + s.to_smt2() + "\n(get-model)\n"
+    fd, path = tempfile.mkstemp(suffix=".smt2", prefix="symx_cvc5_")
+    try:
+        with os.fdopen(fd, "w") as f:
+            f.write(txt)
+        try:
+            p = subprocess.run([CVC5, "--tlimit=%d" % timeout_ms, path], capture_output=True, text=True, timeout=timeout_ms / 1000 + 10)
+        except subprocess.TimeoutExpired:
+            return None
+    finally:
+        try:
+            os.unlink(path)
+        except OSError:
+            pass
+    out = p.stdout
+    if "(error" in out or "(error" in p.stderr:
+        return None
+    first = out.strip().splitlines()[0].strip() if out.strip() else ""
+    if first == "unsat":
+        return "unsat", None
+    if first != "sat":
+        return None
+    vals = {}
+    for m in re.finditer(r"\(define-fun\s+(\S+)\s+\(\)\s+\(_ BitVec (\d+)\)\s+#([xb])([0-9a-fA-F]+)\)", out):
+        vals[m.group(1).strip("|")] = ("bv", (int(m.group(2)), int(m.group(4), 16 if m.group(3) == "x" else 2)))
+    for m in re.finditer(r"\(define-fun\s+(\S+)\s+\(\)\s+Bool\s+(true|false)\)", out):
+        vals[m.group(1).strip("|")] = ("bool", m.group(2) == "true")
+    return "sat", vals
+
+
 class Ctx:
     def __init__(self, replay):
         self.solver = z3.Solver()
@@ -53,18 +100,66 @@ class Ctx:
         self.notes = {}            # harness scratch (inputs to concretise for replay etc.)
         self.nvars = 0
         self.unknowns = 0
-        self.query_timeout_ms = 60000
+        self.query_timeout_ms = QUERY_TIMEOUT_MS[0]
+        self.fp_used = False       # set by symx.fp: queries then go through the bit-blasting tactic (much faster on QF_BVFP)
+        self._msolver = None
 
     # ---- solver access
     def _check(self, *assumptions):
         t = time.time()
-        self.solver.set("timeout", self.query_timeout_ms)
-        r = self.solver.check(*assumptions)
+        if self.fp_used:
+            r = self._check_fp(assumptions)
+        else:
+            self.solver.set("timeout", self.query_timeout_ms)
+            r = self.solver.check(*assumptions)
+            self._msolver = self.solver
         self.solver_time += time.time() - t
         self.queries += 1
         if r == z3.unknown:
             self.unknowns += 1
         return r
+
+    def _check_fp(self, assumptions):
+        """Floating-point queries: portfolio of z3 (bit-blast + smt core), z3 default and the cvc5 binary.
+        Any disagreement between engines is reported as unknown."""
+        budget = self.query_timeout_ms
+        verdicts = []
+        for tac, share in ((_FP_TACTIC, 0.35), (None, 0.25)):
+            s = tac.solver() if tac is not None else z3.Solver()
+            s.set("timeout", max(1000, int(budget * share)))
+            s.add(self.solver.assertions())
+            for a in assumptions:
+                s.add(a)
+            r = s.check()
+            if r != z3.unknown:
+                self._msolver = s
+                return r
+        r = _cvc5_check(self.solver.assertions(), assumptions, max(1000, int(budget * 0.4)))
+        if r is None:
+            self._msolver = None
+            return z3.unknown
+        verdict, values = r
+        if verdict == "unsat":
+            return z3.unsat
+        # rebuild a z3 model from cvc5's values (all free variables fixed: evaluation only)
+        s = z3.Solver()
+        s.add(self.solver.assertions())
+        for a in assumptions:
+            s.add(a)
+        for name, (sort, val) in values.items():
+            if sort == "bv":
+                w, v = val
+                s.add(z3.BitVec(name, w) == z3.BitVecVal(v, w))
+            elif sort == "bool":
+                s.add(z3.Bool(name) == val)
+        s.set("timeout", 20000)
+        if s.check() == z3.sat:
+            self._msolver = s
+            return z3.sat
+        return z3.unknown        # engines disagree or the model could not be transferred: inconclusive
+
+    def _model(self):
+        return self._msolver.model()
 
     def add(self, cond):
         """Assume cond (z3 Bool or SymBool or bool) on this path; abort the path if it becomes infeasible."""
@@ -83,7 +178,7 @@ class Ctx:
                 raise PathAbort("assume infeasible")
             if r == z3.unknown:
                 raise Unsupported("solver unknown on assumption")
-            self.model = self.solver.model()
+            self.model = self._model()
 
     def current_model(self):
         if self.model is None:
@@ -92,7 +187,7 @@ class Ctx:
                 raise PathAbort("infeasible")
             if r == z3.unknown:
                 raise Unsupported("solver unknown")
-            self.model = self.solver.model()
+            self.model = self._model()
         return self.model
 
     def branch(self, cond):
@@ -143,7 +238,7 @@ class Ctx:
             return "unsat", None
         r = self._check(cond)
         if r == z3.sat:
-            return "sat", self.solver.model()
+            return "sat", self._model()
         if r == z3.unsat:
             return "unsat", None
         return "unknown", None
